@@ -239,7 +239,10 @@ class State:
         return self.choose([z3.BoolVal(True)] * n)
 
     def force(self, v):
-        while isinstance(v, SOpt):
+        while isinstance(v, (SOpt, V.SCases)):
+            if isinstance(v, V.SCases):
+                v = v.cases[self.choose([c for c, _ in v.cases])][1]
+                continue
             if self.branch(v.isnone):
                 return None
             v = v.val
